@@ -366,6 +366,10 @@ def execStatus (status : Nat) : Int :=
     if wifexited status then (if wexitstatus status == 127 then -1 else (wexitstatus status : Int)) else error
   if wifsignaled status then ((128 + wtermsig status : Nat) : Int) else error
 
+/-- The child of `exec()`: `execvp(argv[0], argv); warn(...); _exit(127);` - whatever the reason `execvp` fails for
+(ENOENT, EACCES, ENOTDIR, ENOEXEC, ...), the child exits with this status, which the parent maps to -1. -/
+def execvpFailedStatus : Nat := 127
+
 /-- `exec(argv, fdin)`: `> 0` exited non-zero / signalled, `0` success, `< 0` fatal. -/
 def execP (fdin : Option Handle) : Prog Int := do
   let dn ← (match fdin with
@@ -390,6 +394,18 @@ def execP (fdin : Option Handle) : Prog Int := do
     | some h => let _ ← call (.close h)
     | none => pure ()
     pure res
+
+/-- The value `exec()` derives from what `fork`/`waitpid` report: 0 for a clean exit, the exit
+code for a non-zero exit other than 127, -1 for 127, 128 + signal for a signalled child, and -1
+when /dev/null cannot be opened or `fork`/`waitpid` fail. -/
+def execValue (devnullOk : Bool) (forkRes waitRes : Res) : Int :=
+  if !devnullOk then -1
+  else match forkRes with
+    | .ok _ =>
+      match waitRes with
+      | .ok status => execStatus status
+      | _ => -1
+    | _ => -1
 
 /-! ## match.c: matches_exec -/
 
